@@ -130,6 +130,8 @@ def _body(ctx, conv, shape, bounds, as_coords, nan_cells, mesh_opts, descending,
     geom = cv.geometry
     if ctx.symbolic:
         if isinstance(geom, pipeline.SymUnion):
+            ctx.check(not geom.coverage or conv in ('shoc_standard',),
+                      'geometry is the union of exactly the existing polygons')      # cells given by stored corners need not tile
             ctx.check(len(geom.parts) == sum(present) and all(a is b for a, b in zip(geom.parts, [polygons[n] for n in range(N) if present[n]])),
                       'geometry is the union of exactly the existing polygons')
         elif isinstance(geom, pipeline.SymBox):
